@@ -168,6 +168,27 @@ func c14Unmarshal(b []byte, p interface{}) error {
 // c14E2E: each value is encoded/decoded by the program of its own type, whatever was processed before
 func c14E2E(c *Ctx, rng *rand.Rand) {
 	dyn := c14DynTypes()
+	// the first encoding of a type is under a field query: what the cache keeps for the type is the
+	// type's program, not the filtered one
+	{
+		for n, i := range rng.Perm(len(c14Vals))[:6] {
+			v := c14Vals[i]
+			var q *json.FieldQuery
+			if n%2 == 0 {
+				q, _ = json.BuildFieldQuery("nothing-of-this-name")
+			} else {
+				q, _ = json.BuildFieldQuery(json.FieldQueryString(fmt.Sprintf("F%04d", i)))
+			}
+			_, _, _ = safeMarshal(func() ([]byte, error) {
+				return json.MarshalContext(json.SetFieldQueryToContext(context.Background(), q), v)
+			})
+			want := fmt.Sprintf(`{"F%04d":%d}`, i, i)
+			got, err, pan := safeMarshal(func() ([]byte, error) { return json.Marshal(v) })
+			c.Oracle("e2e/plain-after-first-query", fmt.Sprintf("%T: first encoded under a query, then plainly", v), fmt.Sprintf("%s err=%v panic=%s", got, err, pan), want, pan == "" && err == nil && string(got) == want, "")
+			got, err, pan = safeMarshal(func() ([]byte, error) { return json.Marshal([]interface{}{v}) })
+			c.Oracle("e2e/plain-after-first-query", fmt.Sprintf("%T inside an interface", v), fmt.Sprintf("%s err=%v panic=%s", got, err, pan), "["+want+"]", pan == "" && err == nil && string(got) == "["+want+"]", "")
+		}
+	}
 	order := rng.Perm(len(c14Vals))
 	for round := 0; round < 2; round++ {
 		for _, i := range order {
